@@ -2,7 +2,7 @@ CONSTANTS
   Tau = "1/1000000000"
   TauX = "1/1000000000000"
   MaxN = 3
-  MaxEvals = 3
+  MaxEvals = 2
   FullBoxN = 2
   Bug = "none"
 SPECIFICATION Spec
